@@ -158,7 +158,7 @@ type env struct {
 }
 
 func run(c *vf.Ctx) {
-	c.Rule("keys: every format (ssh-rsa, ssh-dss, ecdsa-sha2-nistp256/384/521, ssh-ed25519, sk-ecdsa, sk-ed25519) with boundary shapes (RSA moduli of 1024..16384 bits incl. sizes with and without 00 pad byte, exponents 3..2^24-1; EC points kG and points with leading-zero coordinates; Ed25519 value classes; sk application strings) and certificates for every certified format x every CA signature format x 4 field variants. " +
+	c.Rule("keys: every format (ssh-rsa, ssh-dss, ecdsa-sha2-nistp256/384/521, ssh-ed25519, sk-ecdsa, sk-ed25519) with systematic boundary classes (RSA moduli 1024..16384 bits and exponents 3..2^24-1 on both sides of every mpint pad-byte boundary; DSA g,y of 1015/1016/1017/1023 bits and one-byte 7f/80/ff; EC points kG with X short / Y short / both short / X resp. Y two bytes short for ecdsa on all curves and for sk-ecdsa; Ed25519 and sk-ed25519 value classes and keys with leading/trailing zero bytes; sk application strings), certificates for every certified format x every CA signature format x 4 field variants, and for every boundary-class key a certificate over it and a certificate with it as CA key. " +
 		"(1) per key: ParsePublicKey(blob) = reference fields, Marshal = specification blob byte for byte, NewPublicKey(crypto key).Marshal likewise, MarshalAuthorizedKey text, ParseAuthorizedKey/ParseKnownHosts of it, fingerprints = OpenSSH format over the OpenSSH blob (and = ssh-keygen -l / -E md5 when installed). " +
 		"(2) blob faults: for a representative blob of every format and certificate: every truncation, single-byte substitutions at every position (all 255 values for every byte of every length prefix incl. nested ones, {^b,b^01,b^80,00,ff} elsewhere; thorough: 255 values everywhere and every plain key), trailing bytes; ParsePublicKey must not panic, must reject what the reference grammar rejects, accept what it proves valid, and re-marshal accepted blobs consistently. " +
 		"(3) authorized_keys grammar: option lists of <=2 [thorough <=3] atoms over {flag, k=\"v\", quoted blank, quoted comma, escaped quote, literal tab in quotes, mid-word quote} + unterminated quotes x declared type {right, other format, certificate name, unknown, case-changed, suffixed, missing} x blob {valid, truncated, trailing byte, bad base64, stripped padding} x 4 key formats, and the blank/comment/leading/trailing layout product; multi-line files (all sequences of <=3 lines over 6 line kinds x LF/CRLF/no final newline); compared with sshd's procedure (reference) and with ssh-keygen -lf. " +
